@@ -17,6 +17,10 @@ import hashlib
 
 WATCHEXEC = os.environ.get("WATCHEXEC_BIN", "/verif/target/repo-bin/debug/watchexec")
 VCHILD = os.environ.get("VCHILD", "/verif/target/debug/vchild")
+# memcheck overlay: the binary under test runs inside valgrind (set by --valgrind 1); every wall-clock wait is stretched and
+# only timing-free rules are judged
+VG = False
+VG_SLOW = 1
 
 
 def mono():
@@ -103,6 +107,8 @@ def parse_args():
             o["budget"] = float(v)
         elif k == "--scratch":
             o["scratch"] = v
+        elif k == "--valgrind":
+            o["valgrind"] = v not in ("0", "")
         i += 2
     return o
 
@@ -166,6 +172,8 @@ class Wx:
         open(self.log, "w").close()
         self.err = open(os.path.join(self.dir, "wx.err"), "wb")
         cmd = [WATCHEXEC, "-w", self.proj, "--project-origin", self.proj] + flags
+        if VG:
+            cmd = ["valgrind", "-q", "--error-exitcode=97", "--trace-children=no", "--log-file=" + os.path.join(self.dir, "vg.%p.log")] + cmd
         if cmd_override is None:
             cmd += ["-n", "--", VCHILD, self.log, "c"] + child_opts
         else:
@@ -622,9 +630,12 @@ def c18_scenario(rep, rng, scratch, idx):
     wx.log = log
     try:
         try:
-            wx.p.wait(timeout=15)
+            wx.p.wait(timeout=15 * VG_SLOW)
         except subprocess.TimeoutExpired:
-            V.append(("C18/cli/once-never-exits", "watchexec -1 did not exit within 15 s"))
+            if VG:
+                INC.append("memcheck: watchexec -1 did not exit within %d s inside valgrind" % (15 * VG_SLOW))
+            else:
+                V.append(("C18/cli/once-never-exits", "watchexec -1 did not exit within 15 s"))
             return desc, wx, V, INC
         lines = read_log(log)
         dump = {}
@@ -649,6 +660,84 @@ def c18_scenario(rep, rng, scratch, idx):
             V.append(("C18/cli/wrap/none", "--wrap-process=none: pid %d pgid %d ppid %d (watchexec %d)" % (s["pid"], s["pgid"], s["ppid"], wx.p.pid)))
     finally:
         pass
+    return desc, wx, V, INC
+
+
+# ------------------------------------------------------------------------------------------------
+# memcheck overlay (thorough tier): the production binary inside valgrind; the spawn / signal / kill / reap paths cross
+# into C (fork, exec, setsid, killpg, waitid) where Miri cannot follow
+
+VG_FRAME = None
+
+
+def memcheck_scan(rep, prop, wx, V):
+    """Every error block valgrind wrote for this watchexec process is a violation keyed by its first watchexec frame."""
+    import glob
+    import re as _re
+    n = 0
+    for path in glob.glob(os.path.join(wx.dir, "vg.*.log")):
+        n += 1
+        try:
+            with open(path, errors="replace") as f:
+                lines = f.read().splitlines()
+        except OSError:
+            continue
+        blocks, cur = [], []
+        for l in lines:
+            if l.startswith("=="):
+                body = l.split("== ", 1)[1] if "== " in l else ""
+                if body.strip() == "":
+                    if cur:
+                        blocks.append(cur)
+                    cur = []
+                else:
+                    cur.append(body)
+            elif l.startswith("--"):
+                rep.count("memcheck_tool_warnings_ignored (unhandled syscall etc.)")
+        if cur:
+            blocks.append(cur)
+        for b in blocks:
+            frame = next((x.strip() for x in b if _re.search(r"watchexec|process_wrap|command_group|ignore_files|project_origins", x)), b[0])
+            frame = _re.sub(r"0x[0-9A-Fa-f]+: ", "", frame)
+            frame = _re.sub(r"\(.*$", "", frame).strip()
+            V.append(("%s/memcheck/%s" % (prop, frame[:90]), "valgrind memcheck reported: %s" % " | ".join(b[:8])))
+            rep.count("memcheck_error_blocks")
+    rep.count("memcheck_processes_monitored", n)
+    if n == 0:
+        rep.count("memcheck_log_missing")
+
+
+def vg_scenario(rep, rng, scratch, idx, prop):
+    """Start, change (restart / queue / signal path), terminate: judged by memcheck and the timing-free survivor rule only."""
+    V, INC = [], []
+    mode = rng.choice(["restart", "queue", "signal", "do-nothing"])
+    wrap = rng.choice(["group", "session", "none"])
+    child = rng.choice(["long", "ignore", "quick"])
+    sig = rng.choice([signal.SIGTERM, signal.SIGINT])
+    flags = ["--on-busy-update=" + mode, "--wrap-process=" + wrap, "--stop-timeout=300ms", "--debounce=20ms"]
+    if mode == "signal":
+        flags.append("--signal=SIGUSR1")
+    child_opts = {"long": ["--exit-after", "60000", "--on-signal", "any:30"], "ignore": ["--exit-after", "60000", "--ignore"],
+                  "quick": ["--exit-after", "50"]}[child] + ["--no-overlap-probe"]
+    desc = {"template": "memcheck", "mode": mode, "wrap": wrap, "child": child, "quit": int(sig)}
+    wx = Wx(scratch, "vg-%d" % idx, flags, child_opts)
+    if not wx.wait_starts(1, 120):
+        INC.append("memcheck: no first run within 120 s inside valgrind")
+        return desc, wx, V, INC
+    inotify_ready(wx.p.pid, 60)
+    for k in range(2):
+        wx.change(2)
+        wx.wait_starts(2 + k, 20)
+    t0, took = wx.shutdown(sig, timeout=120)
+    if took is None:
+        INC.append("memcheck: no exit within 120 s of the signal inside valgrind")
+        return desc, wx, V, INC
+    rep.count("memcheck_full_lifecycles (start, change, quit)")
+    rep.count("memcheck_command_runs_observed", len(wx.starts()))
+    time.sleep(0.3)
+    for l in wx.lines():
+        if l["ev"] == "start" and l["tag"] == "c" and proc_alive(l["pid"]):
+            V.append(("C08/cli/survivor-after-exit/%s" % wrap, "command pid %d still alive after watchexec exited" % l["pid"]))
     return desc, wx, V, INC
 
 
@@ -846,6 +935,9 @@ def main():
     if not any(l["ev"] == "start" for l in read_log(st)) or not os.access(WATCHEXEC, os.X_OK):
         sys.stderr.write("wxcli: helper self-test failed or %s is missing: harness error\n" % WATCHEXEC)
         sys.exit(3)
+    global VG, VG_SLOW
+    if o.get("valgrind"):
+        VG, VG_SLOW = True, 8
     LOAD.start()
     deadline = time.time() + o["budget"]
     idx = [0]
@@ -857,7 +949,9 @@ def main():
             with lock:
                 idx[0] += 1
                 i = idx[0]
-            if prop in ("C05", "C08"):
+            if VG and prop != "C18":
+                desc, wx, V, INC = vg_scenario(rep, lrng, scratch, i, prop)
+            elif prop in ("C05", "C08"):
                 desc, wx, V, INC = c05_scenario(rep, lrng, scratch, i)
                 if not INC:
                     c08_cli_tail(rep, lrng, wx, desc, V)
@@ -867,6 +961,11 @@ def main():
                 desc, wx, V, INC = c17_scenario(rep, lrng, scratch, i)
             else:
                 desc, wx, V, INC = c18_scenario(rep, lrng, scratch, i)
+            if VG:
+                if wx.p.poll() is None:
+                    wx.cleanup()
+                memcheck_scan(rep, prop, wx, V)
+                desc["memcheck"] = True
             with lock:
                 rep.evaluations += 1
             h = hashlib.sha1(json.dumps(desc, sort_keys=True).encode()).hexdigest()[:16]
